@@ -3,6 +3,13 @@
 import json, glob, os, re
 HERE = os.path.dirname(os.path.dirname(os.path.abspath(__file__)))
 STRENGTHENED = {
+ "C01-w7m2": "reported by C07 as built; C01's 'escapes' shape gained values whose only character to escape is a control character",
+ "C02-w7m1": "reported by C10 as built (4-deep hierarchy, then any update)",
+ "C04-w7m1": "C04's callable id_spec now returns an 'autoincrement:' base that itself holds a colon",
+ "C11-w7m2": "reported by C10 as built (listings asked, delete, listings asked again - the read battery)",
+ "C12-w7m1": "C12 had the right question but asked it second: the 'other convention first' variant is now the FIRST execution a worker makes for a pair, so a memo keyed without the convention is filled by the other convention (before, detection depended on which worker got which shard)",
+ "C15-w7m2": "C15's numerically sorted values gained different spellings of one number ('200.0' / '2e2')",
+ "C20-w7m2": "C20's solitary reference runs are now made in forked children before the controlling process imports anything, so its first import is the warm-up in the shared directory; a body that stops early because the code under test failed is a finding, not a replay divergence; C20 confirms order-dependent violations by replaying the worker's history",
  "C01-w6m1": "file shape 'flags' gained comma lists with an empty element (doubled / trailing comma)",
  "C01-w6m2": "C01 now opens and consumes other results of the same object while an iteration over the database is open (nested, lock-step, look-ups)",
  "C01-w6m3": "file shape 'dots_extras' gained a feature ending exactly at 2**29",
@@ -215,7 +222,9 @@ what another later returns, shared or subtly different defaults, and off-by-one 
 The sixth wave
 (`*-w6m*`) was asked for persistence (visible only after reopening / only for file databases), SQL
 construction, text edge cases, the iterator protocol, the less travelled of two code paths for one behaviour,
-and numeric edges. %d of the %d changes were not reported by their own property's check as it stood when they
+and numeric edges. The seventh wave (`*-w7m*`) repeated the very first prompt (two changes per property, no hints,
+no list of earlier proposals) as a measurement of the checks as they stood after six waves: of its 40 changes 35 were
+reported straight away (33 by the property's own check), 4 were not reported and 1 only on some runs (see C12-w7m1). %d of the %d changes were not reported by their own property's check as it stood when they
 were first tried (%d of those were reported by another property's check straight away); all are now. Four
 proposals were dropped, not kept as seeded changes: four (C02, C04, C10 in the fifth wave, C10 in the sixth)
 only alter what a FAILED update leaves in the main database file, which the statements leave open (C10 only
